@@ -367,6 +367,26 @@ pub fn dir_case(rng: &mut Rng, cfg: &str, o: &DirOpts, out: &mut Vec<String>) {
                         out.push(format!("{base} gap:0"));
                         out.push(format!("{base} dup:0"));
                         out.push(format!("{base} swapupd:0:1"));
+                        // a version hidden behind a duplicate of its neighbour (count, first and last entry unchanged)
+                        out.push(format!("{base} copy:1:0"));
+                        out.push(format!("{base} copy:1:2"));
+                        if n >= 3 {
+                            out.push(format!("{base} copy:{}:{}", n - 2, n - 1));
+                            out.push(format!("{base} copy:{}:{}", n - 2, n - 3));
+                        }
+                        out.push(format!("{base} copy:0:1"));
+                        // random re-arrangements (selection with repetition) of the updates and of the marker lists
+                        for _ in 0..6 {
+                            let len = (n as i64 + rng.range(0, 2) as i64 - 1).max(1) as usize;
+                            let idx: Vec<String> = (0..len).map(|k| if rng.chance(2, 3) { k.min(n - 1).to_string() } else { rng.below(n as u64).to_string() }).collect();
+                            out.push(format!("{base} sel:{}", idx.join(",")));
+                        }
+                        for _ in 0..2 {
+                            let idx: Vec<String> = (0..rng.range(1, 4)).map(|_| rng.below(4).to_string()).collect();
+                            out.push(format!("{base} pastsel:{}", idx.join(",")));
+                            out.push(format!("{base} futuresel:{}", idx.join(",")));
+                            out.push(format!("{base} drop.newest:1 futuresel:{}", idx.join(",")));
+                        }
                         out.push(format!("{base} value:0:ff"));
                         out.push(format!("{base} value:{}:ee", n.saturating_sub(1)));
                         out.push(format!("{base} epoch:0:{}", epoch + 1));
